@@ -109,6 +109,21 @@ class MillerDomain:
                     by = {(v.get("discr", i) if isinstance(v.get("discr", i), int) else i): v["name"] for i, v in enumerate(adt["variants"])}
                     if all(x in by for x in raw):
                         return Tup([Adt(mm.group(1), by[x], []) for x in raw])
+                # a byte table wrapped in single-field structs (a schedule newtype): the wrappers around the same bytes
+                ty = (c.get("ty") or "").strip()
+                wraps = []
+                for _ in range(3):
+                    sadt = self.F.adts.get(ty.split("<")[0])
+                    fs = ((sadt or {}).get("variants") or [{}])[0].get("fields") or []
+                    if not sadt or sadt.get("kind") != "Struct" or len(fs) != 1:
+                        break
+                    wraps.append((ty.split("<")[0], sadt["variants"][0]["name"]))
+                    ty = (fs[0].get("ty") or "").strip()
+                if wraps and _re.match(r"^\[u8; (\d+|[A-Z][A-Za-z0-9_]*)\]$", ty):
+                    v = Tup(raw)
+                    for nm, vn in reversed(wraps):
+                        v = Adt(nm, vn, [v])
+                    return v
                 return Tup(raw)
         return TOP
 
